@@ -40,6 +40,9 @@ def prog(ctor: int, k: int, npool: int, o1: int, a1: int, o2: int, a2: int, o3: 
             r = param.Parameter(default=O[0], readonly=True)
             r2 = param.Parameter(default=O[0])
 
+            def __len__(self):         # instances are falsy (an empty container)
+                return 0
+
         class Q(P):
             pass
         P.param.r2.readonly = True      # read-only by flag only: its constant flag stays False
@@ -188,7 +191,11 @@ def two(k: int, npool: int, o1: int, t1: int, a1: int, o2: int, t2: int, a2: int
             stack.pop()[0].__exit__(None, None, None)
         elif o == 3:    # a new instance, possibly while a block of another object is open
             assume(len(insts) < 3)
-            insts.append(Q())
+            if a == 1:
+                with param.shared_parameters():      # instances built here share their instantiated defaults, constants stay their own
+                    insts.append(Q())
+            else:
+                insts.append(Q())
             held.append({'c': Q.c, 'k': Q.k, 'name': Q.name})
         elif o == 4:    # class-level set on P / Q
             K = P if a % 2 == 0 else Q
